@@ -7,6 +7,9 @@ from ..gen_sol import fs
 from ..common import Check
 from ..diffrun import case_text
 from . import solcommon
+from ..common import HARNESS, build_cpp
+from ..diffrun import DRIVER, run_chunks, compare
+import os
 
 PID = "C05"
 
@@ -279,6 +282,27 @@ def run(replay=None):
                 chk.violation(f"impl:rejected:{bad}:be{a['meta']['be']}",
                               "; ".join(probs) + f"\ncase {a['name']} (twin {b['name']}) meta={a['meta']}\n\ninput:\n" + case_text(a)
                               + "\ntwin input:\n" + case_text(b))
+    # the classifier of sparse update arguments itself (sparse::is_transpose_pattern, what update() runs before anything is modified): the
+    # real function against its loop-level model (PiqpModel/Csc.lean, theorems Csc.guard_ready / guard_complete) on raw-array arguments --
+    # duplicates, unsorted rows, moved entries with unchanged counts -- which the matrix arguments of the histories above cannot express
+    from . import c14 as _c14
+    okb, hk, log = build_cpp("hk", [os.path.join(HARNESS, "hk.cpp")], flags=["-O1"], libs=["-lgmpxx", "-lgmp"])
+    if not okb:
+        chk.violation("build:hk", "harness hk does not compile against the current /repo tree:\n" + log[-3000:], True)
+    else:
+        G = _c14.guard_raw_cases(rng, chk.thorough())
+        gcases = [{"name": f"guard{q // 256}", "lines": G[q:q + 256], "meta": {"kind": "guard-raw"}} for q in range(0, len(G), 256)]
+        gi, e1 = run_chunks([hk], gcases, 14, 120)
+        gm, e2 = run_chunks([DRIVER], gcases, 14, 240)
+        for x in (e1 + e2)[:2]:
+            chk.violation("crash:guard:" + x["why"][:30], f"guard harness/driver lost {x['name']}: {x['why']}", True)
+        gbad = compare(gcases, gi, gm)
+        for b in gbad[:3]:
+            chk.violation("corr:guard:istp",
+                          "sparse update argument classifier (is_transpose_pattern) disagrees with its model on a raw-array argument\n"
+                          f"case {b['name']} line {b['line']}\nimpl : {b['impl'][:200]}\nmodel: {b['model'][:200]}\n\ninput line:\n"
+                          + "\n".join([c for c in gcases if c["name"] == b["name"]][0]["lines"][max(0, b["line"] - 1):b["line"] + 1] if isinstance(b.get("line"), int) and b["line"] >= 0 else []))
+        chk.cov["guard_raw_array_arguments_compared"] = len(G)
     chk.cov["rejection_kinds_exercised"] = kinds
     chk.cov["injected_histories"] = len(pairs)
     chk.cov["violations_found"] = nviol
